@@ -34,7 +34,7 @@ CHECKS = {
     "C14": ("model_checking",
             "explicit-state BFS over pool operation sequences vs list-per-account reference + exhaustive group-order enumeration for momentum content + preemption-bounded schedule exploration of real node threads under a controlled scheduler",
             "Part A: all sequences of <=4 (quick) / <=6 (thorough) pool operations (add, competing add with higher/equal plasma ratio and smaller/larger hash, forced add, competitor of a confirmed block, orphan, four competing momentums confirming different subsets, re-delivery, rollback) on a real node; accept/refuse verdict, pooled chain per account and confirmed frontier compared with a list-per-account reference after every step, plus the single-chain invariant evaluated independently. Part B: real pools of 0..101 (thorough ..130) user blocks plus 0-4 contract batches (refund send + receive created by the real producer path); ALL orders of the per-account groups are fed to the real filter; result must respect the 100-block limit, be a per-account prefix and never split a batch. Part C: three thread scenarios on a real node (inserter vs readers; producing pillar vs sync InsertChain of a competing momentum at the same height vs reader; rollback vs readers), all schedules with <=1 (quick) / <=2 (thorough) preemptions over ~150-450 scheduling points per execution; no deadlock/panic, reader tuples must equal a state of the sequential execution, final raw store and consensus answers must equal a fresh node's replay of the chain the node reports.",
-            "Scheduling at lock/leveldb-write granularity via the vsync overlay; data races below that granularity are not decided by this check.",
+            "Scheduling at lock/leveldb-write granularity via the vsync overlay. The 'no data races' clause is covered by a separate, NON-exhaustive auxiliary: the same scenario bodies run free-running under a -race build (10 / 100 iterations); a race report is a violation, silence is not a proof.",
             "5/C14"),
     "C01": ("model_checking",
             "bounded-history explicit-state exploration on a real node (lexicographic DFS with exact-state prefix pruning) with a whole-ledger invariant evaluated after every transition",
